@@ -25,6 +25,11 @@ fn main() {
     let code = match cmd {
         "g1" => cmd_g1(&args),
         "replay" => cmd_replay(&args),
+        "policy" => cmd_simple(&args, "policy"),
+        "limits" => cmd_simple(&args, "limits"),
+        "layout" => cmd_simple(&args, "layout"),
+        "fwd" => cmd_simple(&args, "fwd"),
+        "containers" => cmd_simple(&args, "containers"),
         "features" => {
             println!(
                 "finalization={} weak-ptrs={} cleaners={} auto-collect={} debug_assertions={}",
@@ -132,6 +137,146 @@ fn cmd_g1(args: &[String]) -> i32 {
     code
 }
 
+fn cmd_simple(args: &[String], engine: &str) -> i32 {
+    let prop = arg(args, "--prop").unwrap_or("C15").to_string();
+    let cases: u32 = arg(args, "--cases").and_then(|s| s.parse().ok()).unwrap_or(1000);
+    let seed: u64 = arg(args, "--seed").and_then(|s| s.parse().ok()).unwrap_or(1);
+    let out = arg(args, "--out").map(|s| s.to_string());
+    let replay_out = arg(args, "--replay-out");
+    let cfg_name = arg(args, "--config-name").unwrap_or("?").to_string();
+    let known: Vec<String> = arg(args, "--known").map(|s| load_known(s, &prop)).unwrap_or_default();
+    if let Some(r) = replay_out {
+        rccv::crash::install(r);
+    }
+    KIND.with(|k| k.set(match engine { "policy" => "policy", "limits" => "limits", "fwd" => "fwd", "containers" => "containers", "layout" => "layout", "threads" => "threads", _ => "heap" }));
+    let (code, mut report) = match engine {
+        "policy" => {
+            let max_ops: usize = arg(args, "--max-ops").and_then(|s| s.parse().ok()).unwrap_or(60);
+            drive(&prop, engine, &cfg_name, cases, seed, rccv::policy::strategy(max_ops), &known, replay_out, |c: &rccv::policy::PCase, log| {
+                persist(&prop, &cfg_name, c);
+                let r = rccv::policy::run_on_thread(c, log);
+                let mut classes = Vec::new();
+                if r.grew { classes.push("threshold-grew".to_string()); }
+                if r.shrank { classes.push("threshold-shrank".to_string()); }
+                if r.near_boundary > 0 { classes.push("creation-near-boundary".to_string()); }
+                if r.buffered_trigger > 0 { classes.push("triggered-by-buffered-threshold".to_string()); }
+                if r.triggered > 0 { classes.push("auto-collection".to_string()); }
+                SimpleOut { violations: r.violations, nontrivial: r.nontrivial, hash: c.hash64(), classes }
+            })
+        }
+        "limits" => drive(&prop, engine, &cfg_name, cases, seed, rccv::limits::strategy(), &known, replay_out, |c: &rccv::limits::LCase, log| {
+            persist(&prop, &cfg_name, c);
+            let r = rccv::limits::run_on_thread(c, log);
+            let mut classes = Vec::new();
+            if r.hit_strong > 0 { classes.push("hit-strong-limit".to_string()); }
+            if r.hit_weak > 0 { classes.push("hit-weak-limit".to_string()); }
+            if r.moved_away_and_back { classes.push("left-limit-and-returned".to_string()); }
+            SimpleOut { nontrivial: (r.hit_strong > 0 || r.hit_weak > 0) && r.moved_away_and_back || r.hit_strong + r.hit_weak >= 2, violations: r.violations, hash: c.hash64(), classes }
+        }),
+        "layout" => drive(&prop, engine, &cfg_name, cases, seed, rccv::layout::strategy(), &known, replay_out, |c: &rccv::layout::GCase, log| {
+            persist(&prop, &cfg_name, c);
+            let r = rccv::layout::run_on_thread(c, log);
+            let mut classes = vec![format!("align-{}", rccv::layout::ALIGNS[c.align as usize % 13]), format!("size-{}", rccv::layout::SIZES[c.size as usize % 8])];
+            if r.unwrap_ok > 0 { classes.push("unwrap-ok".to_string()); }
+            if r.unwrap_err > 0 { classes.push("unwrap-err".to_string()); }
+            let nontrivial = match prop.as_str() {
+                "C13" => r.unwrap_ok > 0 && r.unwrap_err > 0,
+                _ => c.ops.len() >= 3,
+            };
+            SimpleOut { nontrivial, violations: r.violations, hash: c.hash64(), classes }
+        }),
+        "fwd" => drive(&prop, engine, &cfg_name, cases, seed, rccv::fwd::strategy(), &known, replay_out, |c: &rccv::fwd::FCase, _log| {
+            let r = rccv::fwd::run(c);
+            let mut classes = Vec::new();
+            if r.incomparable { classes.push("incomparable-pair".to_string()); }
+            if r.differ { classes.push("values-differ".to_string()); }
+            SimpleOut { nontrivial: r.differ, violations: r.violations, hash: c.hash64(), classes }
+        }),
+        "containers" => drive(&prop, engine, &cfg_name, cases, seed, rccv::containers::strategy(), &known, replay_out, |c: &rccv::containers::CCase, log| {
+            persist(&prop, &cfg_name, c);
+            let r = rccv::containers::run_on_thread(c, log);
+            let classes = vec![format!("{:?}", c.shape).split('(').next().unwrap().to_string()];
+            SimpleOut { nontrivial: r.cycle_reclaimed, violations: r.violations, hash: c.hash64(), classes }
+        }),
+        _ => (2, json!({})),
+    };
+    // tag the replay file with its kind so that `replay` can dispatch
+    if let Some(r) = replay_out {
+        if let Ok(text) = std::fs::read_to_string(r) {
+            if let Ok(mut v) = serde_json::from_str::<serde_json::Value>(&text) {
+                v["kind"] = json!(engine);
+                let _ = std::fs::write(r, serde_json::to_string_pretty(&v).unwrap());
+            }
+        }
+    }
+    let _ = &mut report;
+    if let Some(out) = out {
+        std::fs::write(&out, serde_json::to_string(&report).unwrap()).expect("write report");
+    } else {
+        println!("{}", serde_json::to_string_pretty(&report).unwrap());
+    }
+    code
+}
+
+thread_local! {
+    static KIND: std::cell::Cell<&'static str> = const { std::cell::Cell::new("heap") };
+}
+
+fn replay_simple(kind: &str, prop: &str, v: &serde_json::Value, path: &str) -> i32 {
+    let vios: Vec<rccv::world::Violation> = match kind {
+        "policy" => {
+            let c: rccv::policy::PCase = serde_json::from_value(v["case"].clone()).expect("case");
+            let r = rccv::policy::run_on_thread(&c, true);
+            for l in &r.log {
+                println!("{}", l);
+            }
+            r.violations
+        }
+        "limits" => {
+            let c: rccv::limits::LCase = serde_json::from_value(v["case"].clone()).expect("case");
+            let r = rccv::limits::run_on_thread(&c, true);
+            for l in &r.log {
+                println!("{}", l);
+            }
+            r.violations
+        }
+        "layout" => {
+            let c: rccv::layout::GCase = serde_json::from_value(v["case"].clone()).expect("case");
+            let r = rccv::layout::run_on_thread(&c, true);
+            for l in &r.log {
+                println!("{}", l);
+            }
+            r.violations
+        }
+        "containers" => {
+            let c: rccv::containers::CCase = serde_json::from_value(v["case"].clone()).expect("case");
+            rccv::containers::run_on_thread(&c, true).violations
+        }
+        "fwd" => {
+            let c: rccv::fwd::FCase = serde_json::from_value(v["case"].clone()).expect("case");
+            rccv::fwd::run(&c).violations
+        }
+        _ => {
+            eprintln!("unknown replay kind {}", kind);
+            return 2;
+        }
+    };
+    for x in &vios {
+        println!("violation props={:?} sig={} :: {}", x.props, x.sig, x.detail);
+    }
+    if vios.iter().any(|x| x.props.iter().any(|p| p == prop)) {
+        println!("VIOLATION property={} replay={}", prop, path);
+        1
+    } else {
+        0
+    }
+}
+
+fn persist<T: Serialize>(prop: &str, cfg: &str, case: &T) {
+    let v = json!({"property": prop, "engine": "crash", "kind": KIND.with(|k| k.get()), "configuration": cfg, "case": case, "signature": "process-killed-by-signal"});
+    rccv::crash::set_current(serde_json::to_vec(&v).unwrap());
+}
+
 fn cmd_replay(args: &[String]) -> i32 {
     let Some(path) = args.get(2) else {
         eprintln!("usage: rccv replay FILE [--prop P] [--known FILE]");
@@ -140,6 +285,10 @@ fn cmd_replay(args: &[String]) -> i32 {
     let text = std::fs::read_to_string(path).expect("read replay file");
     let v: serde_json::Value = serde_json::from_str(&text).expect("parse replay file");
     let prop = arg(args, "--prop").map(|s| s.to_string()).or_else(|| v["property"].as_str().map(|s| s.to_string())).unwrap_or("C01".into());
+    let kind = v["kind"].as_str().unwrap_or("heap").to_string();
+    if kind != "heap" && kind != "g1" && kind != "crash" && kind != "g2" && kind != "g4" {
+        return replay_simple(&kind, &prop, &v, path);
+    }
     let case: Case = serde_json::from_value(v["case"].clone()).expect("case");
     let known: Vec<String> = arg(args, "--known").map(|s| load_known(s, &prop)).unwrap_or_default();
     let opts = RunOpts { strict: true, logging: !args.iter().any(|a| a == "--quiet"), known, quiesce_mid: false, timeout_s: 20, persist: false, prop: prop.clone(), config: String::new() };
